@@ -1,0 +1,52 @@
+//go:build verif
+
+// Package verifhook provides trace hooks for the external verification
+// harness. With the "verif" build tag, events are delivered to the
+// installed sink.
+package verifhook
+
+import "sync/atomic"
+
+// On reports whether the hooks are compiled in.
+const On = true
+
+type fn func(name string, args []any)
+
+var (
+	sink  atomic.Pointer[fn]
+	sched atomic.Pointer[fn]
+)
+
+// SetSink installs the event consumer. nil removes it.
+func SetSink(f func(name string, args []any)) {
+	if f == nil {
+		sink.Store(nil)
+		return
+	}
+	ff := fn(f)
+	sink.Store(&ff)
+}
+
+// SetSched installs the gate handler. nil removes it.
+func SetSched(f func(name string, args []any)) {
+	if f == nil {
+		sched.Store(nil)
+		return
+	}
+	ff := fn(f)
+	sched.Store(&ff)
+}
+
+// Ev records a trace event.
+func Ev(name string, args ...any) {
+	if f := sink.Load(); f != nil {
+		(*f)(name, args)
+	}
+}
+
+// Gate is a trace point that the installed scheduler may block.
+func Gate(name string, args ...any) {
+	if f := sched.Load(); f != nil {
+		(*f)(name, args)
+	}
+}
